@@ -47,6 +47,16 @@ declare -A CHECKS=(
  [C17-complete-unbondings-pays-zero-coin]="C17 C02"
  [C18-export-drops-unbondings-completing-now]="C18"
  [C19-keeper-level-asset-cache]="C19"
+ [C02-slash-undelegations-breaks-after-first-match]="C02 C07"
+ [C05-undelegate-updates-asset-after-dust-clear]="C05 C03"
+ [C08-slash-undelegations-sends-zero-coin]="C08 C07"
+ [C09-warmup-asset-stalls-takerate-clock]="C09"
+ [C12-slash-redelegation-writes-back-stale-delegation]="C12 C13 C07"
+ [C13-zero-payout-claim-skips-history-update]="C13 C12"
+ [C14-update-alliance-keeps-old-decay-clock]="C14 C16"
+ [C16-delete-alliance-authority-check-inside-staked-branch]="C16"
+ [C18-import-stores-redelegation-without-index]="C18"
+ [C20-binding-delegation-drops-rounder]="C20"
 )
 mkdir -p /verif/out/seeded
 ids=("$@"); [ ${#ids[@]} -eq 0 ] && ids=($(ls -d /verif/seeded/*/ | xargs -n1 basename))
